@@ -41,7 +41,14 @@ def gen_sequence(rng, ctx, size="small"):
                 gen.gen_dataset(rng, ctx.T, ed, t, 1)
             except gen.Reject:
                 continue
-            h = new(); ops.append("T%d=1,%d,%s" % (h, ed, ",".join(map(str, t)))); live["tmpl"].append(h); tmpl_desc[h] = (ed, t)
+            # some templates carry default values (here on code / flag table elements, any position): "-(v+1)" after the descriptor
+            tt = []
+            for d_ in t:
+                tt.append(str(d_))
+                e_ = ctx.T.B.get(d_)
+                if e_ is not None and e_["kind"] in ("code", "flag") and gen.X(d_) != 31 and rng.random() < 0.25:
+                    tt.append(str(-(rng.randrange(0, max(1, (1 << min(e_["width"], 20)) - 1)) + 1)))
+            h = new(); ops.append("T%d=1,%d,%s" % (h, ed, ",".join(tt))); live["tmpl"].append(h); tmpl_desc[h] = (ed, t)
         elif r < 0.24 and live["tmpl"]:
             s = rng.choice(live["tmpl"]); h = new(); ops.append("C%d=%d" % (h, s)); live["tmpl"].append(h); tmpl_desc[h] = tmpl_desc[s]
         elif r < 0.40 and live["tmpl"]:
